@@ -32,6 +32,8 @@ struct Stats {
     samples: Vec<String>,
     c09_calls: u64,
     c09_interleavings: BTreeSet<Vec<u8>>,
+    /// distinct (hash, w, levels, case kind, worker arrival order)
+    cases: BTreeSet<String>,
 }
 
 fn lmots(w: u32) -> LmotsAlgorithm {
@@ -284,6 +286,9 @@ fn scenario_c15(stats: &Arc<Mutex<Stats>>) {
     }
     let mut st = stats.lock().unwrap();
     st.iterations += 1;
+    let kind = if summary.contains("too-short") { "too-short" } else if summary.contains("nonzero-trailer") { "nonzero-trailer" } else if summary.contains("cb-reject") { "cb-reject" } else { "signed" };
+    let arr = summary.split("arrivals ").nth(1).map(|x| x.split(']').next().unwrap_or("").to_string()).unwrap_or_default();
+    st.cases.insert(format!("{}|w{}|L{}|{}|{}", hname, w, levels, kind, arr));
     *st.by_hash.entry(hname.to_string()).or_insert(0) += 1;
     *st.by_w.entry(w).or_insert(0) += 1;
     if st.samples.len() < 5 {
@@ -466,7 +471,7 @@ fn main() {
                     "iterations": st.iterations, "signed_ok": st.signed_ok, "refusals": st.refusals, "cb_rejects": st.cb_rejects,
                     "arrival_orders": st.arrival_orders.iter().collect::<Vec<_>>(),
                     "by_hash": st.by_hash, "by_w": st.by_w, "zero_trailer_kept": st.zero_trailer_kept, "byte_identical_to_model": st.byte_identical_to_model,
-                    "samples": st.samples, "c09_calls": st.c09_calls, "c09_interleavings": st.c09_interleavings.len(),
+                    "cases": st.cases.iter().collect::<Vec<_>>(), "samples": st.samples, "c09_calls": st.c09_calls, "c09_interleavings": st.c09_interleavings.len(),
                     "wall_s": t0.elapsed().as_secs_f64(), "violation": violation,
                 });
                 std::fs::write(&piece, serde_json::to_string(&j).unwrap()).expect("write piece");
